@@ -3,12 +3,46 @@
 // Contracts for the gocv verifier (comment-only file; see /verif/DESIGN.md §4).
 package cache
 
-//@ func (c *Cache) Get
-//@   nobody
-//@   log cacheGet
-//@   requires c != nil
+//@ import concurrent_map "github.com/IrineSistiana/mosdns/v5/pkg/concurrent_map"
 
-//@ func (c *Cache) Store
-//@   nobody
+// the backing map of a Cache holds non-nil *elem values only (Store builds each with &elem{...})
+//@ axiom cache-values: forall v int {valOK(v)} :: valOK(v) <==> v != 0
+
+//@ type Cache
+//@   immutable m, closeNotify
+
+// the capacity the property promises for a configured size: at least the documented minimum
+//@ spec func capacityOf(size int) int = ite(size < 1024, 1024, size)
+
+//@ func (opts *Opts) init [C11]
+//@   requires opts != nil
+//@   modifies opts.Size, opts.CleanerInterval
+//@   ensures opts.Size >= 1024 && opts.Size == capacityOf(old(opts.Size))
+
+// New (C11): every shard of the backing map has a positive bound, and the 64 bounds together
+// do not exceed the configured capacity — so the cache can never hold more entries than that.
+//@ func New [C11]
+//@   modifies *
+//@   ensures result != nil && fresh(result) && result.m != nil
+//@   ensures forall i int :: 0 <= i && i < 64 ==> result.m.shards[i].max > 0 && 64 * result.m.shards[i].max <= capacityOf(opts.Size)
+
+// Get (C05, C11): an entry whose expiry lies before now is never returned (and is removed).
+//@ func (c *Cache) Get [C05, C11]
+//@   log cacheGet
+//@   requires c != nil && c.m != nil
+//@   modifies *
+//@   ensures calls(mapGet) == 1 && arg(mapGet, 0, 0) == c.m
+//@   ensures ok ==> ret(mapGet, 0, 1) && v == aftercall(mapGet, 0, ret(mapGet, 0, 0).v) && calls(timeNow) == 1 && !(aftercall(mapGet, 0, ret(mapGet, 0, 0).expirationTime.ns) < ret(timeNow, 0).ns) && calls(mapDel) == 0
+//@   ensures ret(mapGet, 0, 1) && aftercall(mapGet, 0, ret(mapGet, 0, 0).expirationTime.ns) < ret(timeNow, 0).ns ==> !ok && calls(mapDel) == 1
+
+// Store (C05, C11): an entry already expired is not admitted; otherwise exactly one Set under the given key.
+//@ func (c *Cache) Store [C05, C11]
 //@   log cacheStore
-//@   requires c != nil
+//@   requires c != nil && c.m != nil
+//@   modifies *
+//@   ensures calls(timeNow) == 1 && calls(mapSet) == ite(ret(timeNow, 0).ns > expirationTime.ns, 0, 1)
+//@   ensures calls(mapSet) == 1 ==> arg(mapSet, 0, 0) == c.m && fresh(arg(mapSet, 0, 2)) && atcall(mapSet, 0, arg(mapSet, 0, 2).v == v && arg(mapSet, 0, 2).expirationTime == expirationTime)
+
+// the cleaner goroutine touches the cache only through the (locked) map operations
+//@ func (c *Cache) gcLoop
+//@   nobody
